@@ -694,9 +694,9 @@ let parse_theader (line : string) : theader =
   let n = nat_of_int (geti kv "n" 1) in
   let sys = match get kv "sys" "take" with
     | "take" -> TsTake (fixed, n)
-    | "merge" -> TsMerge n
+    | "merge" -> if get kv "free" "0" = "1" then TsMergeFine (fixed, n) else TsMerge n
     | "combine" -> TsCombine (fixed, n)
-    | "takemerge" -> TsTakeMerge n
+    | "takemerge" -> TsTakeMerge (fixed, n, nat_of_int (geti kv "th" 2))
     | s -> failwith ("unknown sys " ^ s) in
   let nth = geti kv "th" 2 in
   let qs t = List.map (fun x -> VN (nat_of_int x)) (parse_list (get kv (Printf.sprintf "q%d" (int_of_nat t)) "-")) in
@@ -736,7 +736,7 @@ let str_tviol = function
   | TvDataLost -> "C18:DataLost" | TvDataForged -> "C18:DataForged" | TvOrder -> "C18:Order"
   | TvIncompleteTuple -> "C18:IncompleteTuple" | TvTermDuringData -> "C18:TermDuringData"
   | TvNoTerminal -> "C18:NoTerminal" | TvAfterTerminal -> "C18:AfterTerminal"
-  | TvPanic -> "C18:Panic"
+  | TvPanic -> "C18:Panic" | TvDisposedTwice -> "C18:DisposedTwice"
 
 let tfuel = nat_of_int 400
 
